@@ -16,6 +16,20 @@ theorem readVarInt_enc (n : Nat) (t : List UInt8) (hn : n ≤ 184467440737095516
     VI.dec 0 (VI.enc n ++ t) = .ok n t :=
   VI.dec_enc n t hn
 
+/-- the VarInt code is prefix-free on u64: two encodings followed by anything agree only if value and remainder agree — so the
+    six fields of an index value can be cut in exactly one way, and no two different (height, status, file, offset) tuples that
+    Core writes share a byte string -/
+theorem varint_prefix_free (a b : Nat) (s t : List UInt8) (ha : a ≤ 18446744073709551615) (hb : b ≤ 18446744073709551615)
+    (h : VI.enc a ++ s = VI.enc b ++ t) : a = b ∧ s = t := by
+  have h1 := VI.dec_enc a s ha
+  rw [h, VI.dec_enc b t hb] at h1
+  injection h1 with e1 e2
+  exact ⟨e1.symm, e2.symm⟩
+
+theorem varint_enc_injective (a b : Nat) (ha : a ≤ 18446744073709551615) (hb : b ≤ 18446744073709551615)
+    (h : VI.enc a = VI.enc b) : a = b :=
+  (varint_prefix_free a b [] [] ha hb (by rw [h])).1
+
 /-- index records: decoding what Core writes (`nFile` iff HAVE_DATA|HAVE_UNDO, `nDataPos` iff HAVE_DATA, `nUndoPos` iff
     HAVE_UNDO, then the header) gives back hash, height, status, file number, data offset and the header's prev-hash — for
     every status combination and every u64 value, i.e. every byte width of the VarInts -/
